@@ -4,6 +4,9 @@ use espada::evaluator::{MadeHand, Showdown};
 use espada::hand_range::CardPair;
 
 mod search;
+#[allow(dead_code)]
+#[path = "/repo/examples/multi-thread/scope.rs"]
+mod scope;
 
 fn cards7(args: &[String]) -> [Card; 7] {
     let v: Vec<Card> = args.iter().map(|s| s.parse().expect("card")).collect();
@@ -29,6 +32,22 @@ fn main() {
             let seed: u64 = args[2].parse().unwrap();
             let n: u64 = args[3].parse().unwrap();
             std::process::exit(search::showdown_search(seed, n));
+        }
+        Some("scopes") => {
+            // replay scopes <n>: check the C16 conditions for one worker count
+            let n: u32 = args[2].parse().unwrap();
+            match search::check_scopes(n) { Ok(s) => println!("OK {}", s), Err(s) => { println!("MISMATCH {}", s); std::process::exit(1); } }
+        }
+        Some("scopes-search") => {
+            let n: u32 = args[3].parse().unwrap();
+            for k in 1..=n {
+                if let Err(e) = search::check_scopes(k) {
+                    println!("WITNESS scopes {} :: {}", k, e);
+                    println!("SEARCH tried={} found=1", k);
+                    std::process::exit(1);
+                }
+            }
+            println!("SEARCH tried={} found=0", n);
         }
         Some("iter") => {
             // replay iter <c02|c04|c08> <flop> <full|scopes> <ranges...>
